@@ -235,9 +235,10 @@ const lp_int_ring_t* lp_upolynomial_ring(const lp_upolynomial_t* p) {
 
 void lp_upolynomial_set_ring(lp_upolynomial_t* p, const lp_int_ring_t* K) {
   assert(p);
+  // Attach first: K may be the ring p already holds, with p its only holder
+  lp_int_ring_attach((lp_int_ring_t*)K);
   lp_int_ring_detach(p->K);
   p->K = (lp_int_ring_t*)K;
-  lp_int_ring_attach(p->K);
 }
 
 const lp_integer_t* lp_upolynomial_lead_coeff(const lp_upolynomial_t* p) {
